@@ -70,6 +70,21 @@ func TestGovcReplayLedger(t *testing.T) {
 			fmt.Println("REPLAY-CONFIRMED the block-height index of a rolled-back block is still answered")
 			return
 		}
+	case "height-lookup-returns-the-block-hash":
+		// one block persisted with a known hash: the height -> hash lookup must return that hash
+		ldg.PrepareBlock(nil, 1)
+		ldg.SetBalance(a, big.NewInt(1))
+		accounts, root := ldg.FlushDirtyData()
+		bd := genBlockData(1, accounts, root)
+		bd.Block.BlockHash = bd.Block.Hash()
+		ldg.PersistBlockData(bd)
+		got := ldg.GetBlockHash(1)
+		blk, gerr := ldg.GetBlock(1, false)
+		fmt.Printf("replay: persisted block 1 with hash %s; GetBlockHash(1)=%s; GetBlock(1).BlockHash=%v (err %v)\n", bd.Block.BlockHash.String(), got.String(), blk.BlockHash, gerr)
+		if got.String() != bd.Block.BlockHash.String() {
+			fmt.Println("REPLAY-CONFIRMED GetBlockHash(h) is not the hash of the block stored at height h")
+			return
+		}
 	default:
 		fmt.Println("REPLAY-NOT-CONFIRMED unknown scenario", in.Values["scenario"])
 		return
